@@ -18,6 +18,7 @@ type vxTemplate struct {
 	edb   []ast.PredicateSym // extensional predicates, filled with symbolic facts in round-robin
 	idb   []ast.PredicateSym
 	rng   int64 // if > 0: fact arguments are assumed in [0, rng)
+	gen   bool  // generated program (zz_vx_gen.go): analysis may reject it when unstratifiable
 	enum  int   // if > 0: fact arguments are case indices 0..enum-1 (concrete), used where mangle's pairing hash (symbolic x symbolic products) defeats the solver
 }
 
@@ -232,7 +233,7 @@ func vxAnalyze(t vxTemplate) (*analysis.ProgramInfo, error) {
 
 // VxC01Model: real analysis + real semi-naive engine on a store kind vs the reference model.
 func VxC01Model() {
-	t := vxTemplates()[vxParam("TPL", 0)]
+	t := vxTemplateFor(vxParam("TPL", 0))
 	k := vxParam("K", 2)
 	store := vxNewStore(vxParam("STORE", 0))
 	ref := vxNewRef()
@@ -242,6 +243,15 @@ func VxC01Model() {
 	err = EvalProgram(pi, store)
 	vxObserve("facts-after-eval", store.EstimateFactCount())
 	vxReach("evaluated")
+	if t.gen {
+		// every generated rule is safe: evaluation refuses exactly the programs for which the
+		// reference finds no stratification
+		_, stratifiable := vxStrata(t.rules)
+		vxAssert((err == nil) == stratifiable, "generated-program-rejected-iff-unstratifiable")
+		if err != nil {
+			return
+		}
+	}
 	vxAssert(err == nil, "eval-no-error")
 	unsafe, conv := ref.vxRefEval(t.rules, 50)
 	vxAssert(!unsafe && conv && ref.err == nil, "reference-evaluates")
